@@ -64,3 +64,86 @@ Theorem C18_minrc_interface :
   (forall c, 0 <= c < 18446744073709551615 -> minrc_drop c = Some (Z.max 0 (c - 1), c =? 1)).
 Proof. split; [reflexivity|]. split; [exact minrc_clone_spec | exact minrc_drop_spec]. Qed.
 Print Assumptions C18_minrc_interface.
+
+(** Layer R's part, continued: the deferrer variants.  The runtime machine [exec d fuel p] carries the deferrer kind
+    [d] ([DGlobal]: the global and thread-local deferrers, whose queue survives the Stakker and is dropped by the next
+    [Core::new]; [DInline]: the inline deferrer selected by the features inline-deferrer / multi-stakker, whose queue
+    dies with the last Deferrer clone).  [dk s] is read by one micro-op only, [MNew], and matters only when the
+    previous instance left something queued (R/Dkind.v: [handle_dk], every handler commutes with a change of [dk]
+    otherwise); R/DkindSim.v is the lock-step simulation.  [upto_dropend t] is the prefix of the trace up to and
+    including the first [dropend] event, i.e. what tools/checks/layer_r.py [cfg_compare] compares for the
+    inline-deferrer configurations. *)
+From Coq Require Import List.
+Import ListNotations.
+From Stk Require Import R.Syntax R.Rt R.Dkind R.DkindSim.
+
+(* For EVERY program that creates its Stakker first (every program of the harness does; with the real crate a
+   Deferrer can only be obtained from a Stakker) and any amounts of fuel: until the first Stakker instance has been
+   torn down the two deferrer variants produce exactly the same events. *)
+Theorem C18_deferrer_prefix : forall (t0 : Z) (p : list top) (fuelG fuelI : nat) (tG tI : list ev),
+  exec DGlobal fuelG (TNew t0 :: p) = Done tG -> exec DInline fuelI (TNew t0 :: p) = Done tI ->
+  upto_dropend tG = upto_dropend tI.
+Proof. exact deferrer_prefix. Qed.
+Print Assumptions C18_deferrer_prefix.
+
+(* For every program whatsoever: the same events up to and including the first [new].  This is exact: a closure
+   deferred through a Deferrer before any Stakker exists is dropped by the first Core::new of the global variant only
+   (C18_deferrer_new_first_needed: the traces then differ right after the first [new], before any [dropend]). *)
+Theorem C18_deferrer_prefix_any : forall (p : list top) (fuelG fuelI : nat) (tG tI : list ev),
+  exec DGlobal fuelG p = Done tG -> exec DInline fuelI p = Done tI -> upto_new tG = upto_new tI.
+Proof. exact deferrer_prefix_any. Qed.
+Print Assumptions C18_deferrer_prefix_any.
+
+(* The whole trace: if every Core::new of the global run finds the deferrer queue empty ([news_clean], a computable
+   predicate on the model run: nothing left in limbo by a teardown, nothing deferred while no Stakker exists), the
+   two variants produce the same trace. *)
+Theorem C18_deferrer_full : forall (p : list top) (fuelG fuelI : nat) (tG tI : list ev),
+  news_clean fuelG (map MTop p ++ [MEpilogue]) (init DGlobal) = true ->
+  exec DGlobal fuelG p = Done tG -> exec DInline fuelI p = Done tI -> tG = tI.
+Proof. exact deferrer_full. Qed.
+Print Assumptions C18_deferrer_full.
+
+(* Not vacuous, and sharp: a program with closures, an actor, timers and a token whose Drop handler defers during the
+   field phase of Stakker::drop (limbo, model flag 4): both runs finish, the prefixes (40 events) agree, the full
+   traces differ right after the next [new] (global: the limbo closure is dropped; inline: it leaks). *)
+Theorem C18_deferrer_example :
+  exists tG tI,
+    exec DGlobal 400 ex_prog = Done tG /\ exec DInline 400 ex_prog = Done tI /\
+    upto_dropend tG = upto_dropend tI /\ length (upto_dropend tG) = 40%nat /\
+    existsb (fun e => match e with EModel 4 0 => true | _ => false end) (upto_dropend tG) = true /\
+    nth 41 tG EEpilogue = EDrop 6 (Some QMain) false /\ nth 41 tI EEpilogue = ERunBegin 30 false /\
+    existsb (fun e => match e with ELeak 0 6 => true | _ => false end) tI = true /\
+    existsb (fun e => match e with ELeak _ _ => true | _ => false end) tG = false /\
+    tG <> tI.
+Proof. exact deferrer_prefix_example. Qed.
+Print Assumptions C18_deferrer_example.
+
+Theorem C18_deferrer_new_first_needed :
+  exists tG tI,
+    exec DGlobal 100 pre_prog = Done tG /\ exec DInline 100 pre_prog = Done tI /\
+    upto_new tG = upto_new tI /\ length (upto_new tG) = 3%nat /\
+    nth 3 tG (ENew 0) = EDrop 1 (Some QMain) false /\ nth 3 tI (ENew 0) = EEpilogue /\
+    upto_dropend tG <> upto_dropend tI.
+Proof. exact deferrer_prefix_needs_new_first. Qed.
+Print Assumptions C18_deferrer_new_first_needed.
+
+Theorem C18_deferrer_full_example :
+  news_clean 400 (map MTop clean_prog ++ [MEpilogue]) (init DGlobal) = true /\
+  exists t, exec DGlobal 400 clean_prog = Done t /\ exec DInline 400 clean_prog = Done t /\ length t = 54%nat /\
+            news_clean 400 (map MTop ex_prog ++ [MEpilogue]) (init DGlobal) = false.
+Proof. exact deferrer_full_example. Qed.
+Print Assumptions C18_deferrer_full_example.
+
+(* Why the hypothesis of C18_deferrer_full is [news_clean] and not just "no limbo flag in the trace": an owner handle
+   that outlives the Stakker queues terminate(Dropped) while no Stakker exists (no [~model 4] flag); the next [new]
+   drops the item and frees the actor under the global deferrer only. *)
+Theorem C18_deferrer_limbo_flag_insufficient :
+  exists tG tI,
+    exec DGlobal 200 own_prog = Done tG /\ exec DInline 200 own_prog = Done tI /\
+    existsb (fun e => match e with EModel 4 _ => true | _ => false end) tG = false /\
+    upto_dropend tG = upto_dropend tI /\
+    nth 17 tG EEpilogue = EModel 1 1 /\ nth 17 tI EEpilogue = EDropBegin /\
+    existsb (fun e => match e with ELeak 1 1 => true | _ => false end) tI = true /\
+    tG <> tI.
+Proof. exact deferrer_limbo_flag_insufficient. Qed.
+Print Assumptions C18_deferrer_limbo_flag_insufficient.
